@@ -135,6 +135,41 @@ def run(ctx, b, broken):
     for _ in range(n_rand):
         v = random_tree(cfg, ctx.rng, ctx.rng.randint(1, 3))
         check_instance(v, True, "random-tree")
+    # deep trees from the parser (a left-leaning sum, a member chain, nested blocks): generic traversal still reaches every node
+    # once and show() still prints one line per node - implementation only (the depth is beyond the model driver's fuel)
+    import io as _io
+    from pycparser import c_parser
+    for nm, text in (("sum", "int x = " + " + ".join(f"a{i}" for i in range(260)) + ";"),
+                     ("member-chain", "void f(void){ x = p" + "->n" * 240 + "; }"),
+                     ("nested-blocks", "void f(void){ " + "{ x++; " * 120 + "}" * 120 + " }"),
+                     ("else-if", "void f(int x){ " + " ".join(f"if (x == {i}) a = {i}; else" for i in range(230)) + " a = 0; }")):
+        ctx.evaluations += 1
+        ctx.count("suite:deep-parser-trees")
+        try:
+            tree = c_parser.CParser().parse(text, "deep.c")
+        except RecursionError:
+            continue
+        count = [0]
+
+        def walk(n_):
+            count[0] += 1
+            for _nm, ch in n_.children():
+                walk(ch)
+        walk(tree)
+        seen = []
+
+        class V(c_ast.NodeVisitor):
+            def generic_visit(self, n_):
+                seen.append(1)
+                c_ast.NodeVisitor.generic_visit(self, n_)
+        V().visit(tree)
+        buf = _io.StringIO()
+        tree.show(buf=buf)
+        lines = buf.getvalue().count("\n")
+        if len(seen) != count[0]:
+            ctx.violation({"property": "C14", "suite": "deep-parser-trees", "input": text[:200] + " ...", "problem": f"generic traversal of a deep tree ({nm}) visited {len(seen)} nodes, {count[0]} reachable"})
+        elif lines != count[0]:
+            ctx.violation({"property": "C14", "suite": "deep-parser-trees", "input": text[:200] + " ...", "problem": f"show() printed {lines} lines for {count[0]} reachable nodes of a deep tree ({nm})"})
     if model:
         model.close()
     ctx.notes["rule"] = "class sweep: all 49 classes x every subset of optional children absent x sequence shapes {None, [], 1, 3}; non-trivial = at least one absent child or a sequence of length != 1; random trees of depth <= 3; distinct by value"
